@@ -764,6 +764,7 @@ Proof.
   - destruct (canon_ok _ _ _ _ Hc Hpl) as [-> Hdp]. rewrite Hna in Hcf.
     destruct (lookup s p) as [n|] eqn:Hlp.
     + destruct (is_dir_node n) eqn:Hdn; [discriminate|]. fold tmp in Hcf.
+      destruct (name_too_long tmp); [discriminate|].
       destruct (create_ops um s x tmp) as [c [e|]] eqn:Hco; [discriminate|]. injection Hcf as <-.
       destruct (staged_block _ _ _ _ _ _ _ Hk Hnew Hneq Hco Hrun) as [(n' & L & R & _ & _) [Hg F]].
       apply (inv_extend P s s' x HP HI Hx Hfr).
@@ -899,6 +900,7 @@ Proof.
   - destruct (canon_ok _ _ _ _ Hc Hpl) as [-> _]. rewrite Hna in Hcf.
     destruct (lookup s p) as [n|] eqn:Hlp.
     + destruct (is_dir_node n) eqn:Hdn; [cbn; exact Hdn|].
+      destruct (name_too_long (sibling_new p)); [discriminate|].
       destruct (create_ops um s x (sibling_new p)) as [c [e|]] eqn:Hco; [|discriminate].
       injection Hcf as _ ->. exfalso. eapply create_ops_err; eauto.
     + destruct (create_ops um s x p) as [c [e|]] eqn:Hco; [|discriminate].
